@@ -695,8 +695,8 @@ def run(ctx):
     made = attempts = 0
     while made < n_forms and attempts < 30 * n_forms:
         attempts += 1
-        n, k = rng.randint(1, 3), rng.randint(1, 2)
-        scalar = n == 1 and k == 1 and rng.random() < 0.6
+        scalar = rng.random() < 0.25             # python / 0-d scalars throughout, as in Kalman(ss, 8, 1)
+        n, k = (1, 1) if scalar else (rng.randint(1, 3), rng.randint(1, 2))
         A = gen_mat(rng, n, n, den=1, lo=-1, hi=1)
         C = gen_mat(rng, n, rng.randint(1, 2), den=1, lo=-2, hi=2)
         G = gen_mat(rng, k, n, den=1, lo=-2, hi=2)
